@@ -11,6 +11,12 @@ qseed=int)`. Operations (paths are absolute, without reserved segments):
     ["mdel", path, name]                  del mc[path].meta[name]
     ["mseq", path, [sub...]]              m = mc[path].meta ; then on the SAME handle:
                                            ["set", name, ver, i] | ["del", name] | ["get", name, ver]
+    ["hmeta", path, [[slot, route, sub]...]]  the same sub-operations, each through a HELD NODE WRAPPER:
+                                           slot = key of a table of wrappers that live on across operations
+                                           (dropped at reopen), route = how the wrapper is obtained when the slot
+                                           is empty or no longer denotes the node at `path` (WRAP_ROUTES);
+                                           `.meta` is taken afresh from the wrapper for EVERY sub-operation.
+                                           To the model: one `meta path sub` operation per sub-operation.
     "mset" ops and "set" sub-operations may carry two more elements [.., key shape, value shape]
     (KEY_SHAPES x VAL_SHAPES: `meta[name | (name, ver) | SchemaClass | PluginRef] = instance | dict |
     JSON | bytes | instance of the key class`), "get" sub-operations one more (see `get_shaped`);
@@ -266,6 +272,8 @@ class _Run:
                     except Exception:  # noqa: BLE001
                         pass
         self.stored = {}  # uuid -> instance index (harness bookkeeping for C07)
+        self.held = {}  # slot -> live node wrapper (several wrappers of one node, kept across operations)
+        self.held_at = {}  # slot -> path the wrapper was obtained at
 
     # ------------------------------------------------------------------ helpers
     def hit(self, prop, kind, **kw):
@@ -738,6 +746,90 @@ class _Run:
             self.hit("C06", "live-index-differs-from-rebuilt", step=step, field=d0, live=a, rebuilt=b, after_reopen=reopened)
         return fresh
 
+    # ------------------------------------------------------------------ held node wrappers
+    def same_node(self, w, fresh, path):
+        """Does the kept wrapper `w` still denote the node that `mc[path]` (= `fresh`) denotes?"""
+        try:
+            if w.name != path:
+                return False
+            if path == "/":
+                return True
+            a, b = w.__wrapped__, fresh.__wrapped__
+            if type(a) is not type(b):
+                return False
+            # h5py: object identity; IH5 nodes are (path, creation index) views: wrappers of nodes
+            # that were deleted / moved away are dropped by `drop_held`
+            return bool(a == b) if self.case["driver"] == "h5" else True
+        except Exception:  # noqa: BLE001
+            return False
+
+    def drop_held(self, path):
+        """The node at `path` (and everything below) is gone: path-based (IH5) wrappers are dead."""
+        if self.case["driver"] == "h5":
+            return  # h5py handles follow the object; `same_node` decides
+        for slot, w in list(self.held.items()):
+            try:
+                n = w.name
+            except Exception:  # noqa: BLE001
+                n = None
+            if n is None or n == path or n.startswith(path.rstrip("/") + "/"):
+                del self.held[slot]
+
+    def acquire(self, path, route, fresh):
+        """Another live wrapper of the node at `path`, reached by the navigation `route`."""
+        mc = self.mc
+        w = None
+        try:
+            if route == "get":
+                w = mc.get(path)
+            elif route == "self":
+                w = mc if path == "/" else None
+            elif route == "steps":
+                w = mc["/"]
+                for seg in path.split("/")[1:]:
+                    if seg:
+                        w = w[seg]
+            elif route == "parent":
+                if hasattr(fresh, "keys"):
+                    ks = sorted(fresh.keys())
+                    if ks:
+                        w = fresh[ks[0]].parent
+            elif route == "values" and path != "/":
+                par = mc[path.rsplit("/", 1)[0] or "/"]
+                w = next((v for v in par.values() if v.name == path), None)
+            elif route == "visit" and path != "/":
+                found = []
+                mc.visititems(lambda _n, node: found.append(node) if node.name == path else None)
+                w = found[0] if found else None
+            elif route == "query":
+                for name in sorted(fresh.meta.keys()):
+                    w = next((x for x in mc.metador.query(name) if x.name == path), None)
+                    if w is not None:
+                        break
+        except Exception:  # noqa: BLE001
+            w = None
+        if w is None or not self.same_node(w, fresh, path):
+            w, route = fresh, "item"
+        self.tags.add("wrapper-route:" + route)
+        return w
+
+    def wrapper(self, slot, path, route):
+        """The wrapper kept in `slot` if it still denotes the node at `path`, else a new one."""
+        try:
+            fresh = self.mc[path]
+        except Exception:  # noqa: BLE001
+            return None
+        w = self.held.get(slot)
+        if w is not None and self.same_node(w, fresh, path):
+            self.tags.add("held-wrapper-reused")
+            if self.held_at.get(slot) != path:
+                self.tags.add("held-wrapper-reused-after-move")
+            return w
+        w = self.acquire(path, route, fresh)
+        self.held[slot] = w
+        self.held_at[slot] = path
+        return w
+
     # ------------------------------------------------------------------ operations
     def status(self, f, *a):
         try:
@@ -754,14 +846,32 @@ class _Run:
         if k == "ds":
             return _tree(self.status(lambda: mc.__setitem__(op[1], op[2])))
         if k == "del":
-            return _tree(self.status(lambda: mc.__delitem__(op[1])))
+            st = _tree(self.status(lambda: mc.__delitem__(op[1])))
+            if st == "ok":
+                self.drop_held(op[1])
+            return st
         if k == "copy":
             kw = {"without_meta": True} if op[3] else {}
             if len(op) > 4 and op[4]:  # node object as source: same behaviour as the path form
                 return _tree(self.status(lambda: mc.copy(mc[op[1]], op[2], **kw)))
             return _tree(self.status(lambda: mc.copy(op[1], op[2], **kw)))
         if k == "move":
-            return _tree(self.status(lambda: mc.move(op[1], op[2])))
+            st = _tree(self.status(lambda: mc.move(op[1], op[2])))
+            if st == "ok":
+                self.drop_held(op[1])
+            return st
+        if k == "hmeta":
+            res = []
+            used = set()
+            for slot, route, s in op[2]:
+                w = self.wrapper(slot, op[1], route)
+                if w is None:
+                    return "err"
+                used.add(id(w))
+                res.append(self.meta_sub(w.meta, w, s, step))  # `.meta` afresh at each use
+            if len(used) > 1:
+                self.tags.add("several-wrappers-of-one-node-in-one-op")
+            return "+".join(res)
         if k in ("mset", "mdel", "mseq"):
             try:
                 node = mc[op[1]]
@@ -780,6 +890,7 @@ class _Run:
         if k == "dattr":
             return _tree(self.status(lambda: mc[op[1]].attrs.__delitem__(op[2])))
         if k == "reopen":
+            self.held.clear()
             self.mc.close()
             self.mc = self.MC(self.drv(self.path, "r+"))
             return "ok"
@@ -1445,7 +1556,136 @@ def gen_history(rng, n_ops, driver, insts, held=True, nq=5, nfinal=24, obs=None,
     return ops
 
 
-def gen_case(rng, quick=True, held=True, driver=None, n_ops=None):
+WRAP_ROUTES = ("item", "get", "steps", "parent", "values", "visit", "query", "self")
+
+
+def add_wrappers(case, p_conv=0.6, p_more=0.45):
+    """Re-route metadata operations of a generated history through HELD NODE WRAPPERS (`hmeta`):
+    several live wrappers of the same node, obtained by different navigation routes, kept across
+    later operations (also move / copy / delete of the node) and used in turn, each taking `.meta`
+    afresh. Some operations get further sub-operations through other wrappers of the node. Biased to
+    the situations in which a wrapper that remembered anything about its node would be out of date:
+    the slot whose picture of the node (what was attached when it was obtained + what it did itself)
+    differs from the current one is preferred, and it preferably removes what it knows about.
+    The history itself is not changed (no operation is added; `obs` stays aligned), the random
+    choices come from a generator seeded with the history, so the stream of `rng` is untouched."""
+    import random
+
+    ops, insts = case["ops"], case["insts"]
+    wr = random.Random(int(core.digest(ops), 16))
+    sh = Shadow()
+    slots = {}  # slot -> [believed path, route, names it believes attached, was moved since it was obtained]
+    out = []
+
+    def new_inst(name):
+        insts.append([name, None, make_instance_dict(name, len(insts))])
+        return len(insts) - 1
+
+    def new_slot(p):
+        routes = [r for r in WRAP_ROUTES if (r != "self" or p == "/") and (r not in ("values", "visit") or p != "/")]
+        if p == "/" and wr.random() < 0.5:
+            routes = ["self", "query"]
+        k = len(slots)
+        slots[k] = [p, wr.choice(routes), set(sh.meta.get(p, ())), False]
+        return k
+
+    def pick_slot(p, avoid=None, stale=False):
+        here = sorted(k for k, v in slots.items() if v[0] == p and k != avoid)
+        moved = [k for k in here if slots[k][3]]  # wrapper that was obtained before its node was moved here
+        if moved and wr.random() < 0.6:
+            return wr.choice(moved)
+        if stale:
+            old = [k for k in here if slots[k][2] != sh.meta.get(p, set())]
+            if old and wr.random() < 0.75:
+                return wr.choice(old)
+        if here and (len(here) >= 3 or wr.random() < 0.7):
+            return wr.choice(here)
+        return new_slot(p)
+
+    def did(k, sub, p):
+        """Book-keeping after sub-operation `sub` through slot k (assumes it succeeds when plausible)."""
+        have = sh.meta.setdefault(p, set())
+        if sub[0] == "set" and sub[3] >= 0 and sub[1] in ATTACHABLE and sub[1] not in have:
+            have.add(sub[1])
+            slots[k][2].add(sub[1])
+        elif sub[0] == "del":
+            have.discard(sub[1])
+            slots[k][2].discard(sub[1])
+
+    for op in ops:
+        k = op[0]
+        if k in ("mset", "mdel", "mseq"):
+            p = op[1]
+            subs = op[2] if k == "mseq" else [["set"] + op[2:]] if k == "mset" else [["del", op[2]]]
+            came = any(v[0] == p and v[3] for v in slots.values())
+            if p not in sh.kind or (wr.random() >= (p_conv if k != "mseq" else 0.3) and not came):
+                for s in subs:  # stays a lookup by path (one more, short-lived, wrapper)
+                    if s[0] == "set" and s[3] >= 0 and s[1] in ATTACHABLE:
+                        sh.meta.setdefault(p, set()).add(s[1])
+                    elif s[0] == "del":
+                        sh.meta.setdefault(p, set()).discard(s[1])
+                out.append(op)
+                continue
+            seq = []
+            last = None
+            for s in subs:
+                a = pick_slot(p, stale=(s[0] == "del"))
+                seq.append([a, slots[a][1], s])
+                did(a, s, p)
+                last = a
+            if wr.random() < p_more:
+                for _ in range(wr.randrange(1, 4)):
+                    have = sh.meta.setdefault(p, set())
+                    q = wr.random()
+                    if q < 0.5 and have:
+                        a = pick_slot(p, avoid=last if wr.random() < 0.7 else None, stale=True)
+                        mine = sorted(slots[a][2] & have)
+                        name = wr.choice(mine) if mine and wr.random() < 0.85 else wr.choice(sorted(have))
+                        s = ["del", name]
+                    elif q < 0.88:
+                        free = [n for n in ATTACHABLE if n not in have]
+                        if not free:
+                            continue
+                        a = pick_slot(p, avoid=last if wr.random() < 0.7 else None)
+                        name = wr.choice(free)
+                        s = ["set", name, None, new_inst(name)]
+                    else:
+                        a = pick_slot(p, avoid=last if wr.random() < 0.7 else None)
+                        s = ["get", wr.choice(SCHEMA_NAMES), None]
+                    seq.append([a, slots[a][1], s])
+                    did(a, s, p)
+                    last = a
+            out.append(["hmeta", p, seq])
+            continue
+        out.append(op)
+        if k in ("grp", "ds"):
+            if op[1] not in sh.kind and sh.kind.get(op[1].rsplit("/", 1)[0] or "/", "g") == "g":
+                sh.add(op[1], "g" if k == "grp" else "d")
+        elif k == "del":
+            if op[1] == "/":
+                for x in sh.meta:
+                    sh.meta[x] = set()
+            elif op[1] in sh.kind:
+                for v in slots.values():
+                    if v[0] and (v[0] == op[1] or v[0].startswith(op[1] + "/")):
+                        v[0] = None
+                sh.remove(op[1])
+        elif k in ("copy", "move"):
+            src, dst = op[1], op[2]
+            par = dst.rsplit("/", 1)[0] or "/"
+            if src in sh.kind and src != "/" and dst not in sh.kind and sh.kind.get(par, "g") == "g" and not (k == "move" and dst.startswith(src + "/")):
+                sh.clone(src, dst, not (k == "copy" and op[3]), move=(k == "move"))
+                if k == "move":  # an h5py handle follows its object
+                    for v in slots.values():
+                        if v[0] and (v[0] == src or v[0].startswith(src + "/")):
+                            v[0], v[3] = dst + v[0][len(src):], True
+        elif k == "reopen":
+            for v in slots.values():
+                v[0] = None
+    return dict(case, ops=out, insts=insts)
+
+
+def gen_case(rng, quick=True, held=True, driver=None, n_ops=None, wrappers=False):
     insts = []
     driver = driver or rng.choice(["h5", "ih5"])
     n = n_ops or rng.randrange(6, 22 if quick else 40)
@@ -1456,7 +1696,8 @@ def gen_case(rng, quick=True, held=True, driver=None, n_ops=None):
     else:
         nq, nfinal = 8, (-1 if driver == "h5" and rng.random() < 0.3 else 40 if driver == "h5" else 16)
     ops = gen_history(rng, n, driver, insts, held=held, nq=nq, nfinal=nfinal, obs=obs, sh=sh)
-    return dict(driver=driver, ops=ops, insts=insts, obs=obs)
+    case = dict(driver=driver, ops=ops, insts=insts, obs=obs)
+    return add_wrappers(case) if wrappers else case
 
 
 # --------------------------------------------------------------------------- model lines
@@ -1552,11 +1793,36 @@ def op_line(op):
     raise ValueError(op)
 
 
+def op_lines(op):
+    """Model operations of one harness operation: `hmeta` takes `.meta` afresh from a wrapper for
+    every sub-operation, i.e. one `meta` operation (one newly opened handle) per sub-operation."""
+    if op[0] == "hmeta":
+        return ["meta %s %s" % (op[1], sub_line(x[2])) for x in op[2]]
+    return [op_line(op)]
+
+
+def model_steps(case, mo):
+    """Model output (after the env/init prefix) grouped per harness operation:
+    [status, dump, caches, obs] with the statuses of the model operations of an `hmeta` joined
+    the way the runner joins them ("err" = node missing, once)."""
+    out = []
+    i = 0
+    for op in case["ops"]:
+        n = len(op_lines(op))
+        sts = mo[i:i + n]
+        st = "err" if sts and all(x == "err" for x in sts) else "+".join(sts)
+        out.append([st] + list(mo[i + n:i + n + 3]))
+        i += n + 3
+    if i != len(mo):
+        return None
+    return out
+
+
 def lines(case):
     L = env_lines(get_envinfo()) + ["init"]
     obs = case.get("obs") or [[] for _ in case["ops"]]
     for op, items in zip(case["ops"], obs):
-        L.append(op_line(op))
+        L.extend(op_lines(op))
         L.append("dump")
         L.append("caches " + UNKNOWN)
         L.append("obs " + (",".join("%s:%s:%s:%s" % (k, n, name, vstr(ver)) for k, n, name, ver in items) or "-"))
@@ -1628,9 +1894,10 @@ def compare_parts(parts):
     def compare(case, ir, mo):
         a = ir.get("out")
         k = n_prefix()
-        mo = mo[k:]
-        if len(a) != len(mo):
-            return "length %d vs %d" % (len(a), len(mo))
+        groups = model_steps(case, mo[k:])
+        if groups is None or len(a) != 4 * len(groups):
+            return "length %d vs %d" % (len(a), len(mo) - k)
+        mo = [x for g in groups for x in g]
         ci, cm = Canon(), Canon()
         for i in range(0, len(a), 4):
             step = i // 4
@@ -1693,6 +1960,7 @@ PARTS = {
     "C20": {"selfdesc"},
 }
 N_CASES = {"quick": 150, "thorough": 1500}
+WRAPPER_PROPS = ("C06",)  # histories of these properties use held node wrappers (`add_wrappers`)
 
 
 def impl_for(pid, case):
@@ -1705,7 +1973,7 @@ def cases_for(ctx, pid):
     cases = core.load_corpus(pid)
     n = N_CASES["quick" if ctx.quick else "thorough"]
     for _ in range(n):
-        cases.append(gen_case(ctx.rng, quick=ctx.quick, held=True))
+        cases.append(gen_case(ctx.rng, quick=ctx.quick, held=True, wrappers=pid in WRAPPER_PROPS))
     return cases
 
 
@@ -1799,6 +2067,24 @@ def shrink(ctx, pid, mod, case, detail):
         return [hit(r) for r in pool.run(mod, "impl", [mk(c) for c in cands], timeout=120, workers=min(8, len(cands)))]
 
     ps = ddmin_batch(pairs, fails_many)
+    # then the sub-operations inside the remaining `hmeta` / `mseq` operations
+    pos = [(i, j) for i, (op, _) in enumerate(ps) if op[0] in ("hmeta", "mseq") for j in range(len(op[2]))]
+    if len(pos) >= 2:
+        def only(keep):
+            keep = set(keep)
+            res = []
+            for i, (op, ob) in enumerate(ps):
+                if op[0] in ("hmeta", "mseq"):
+                    sub = [x for j, x in enumerate(op[2]) if (i, j) in keep]
+                    if sub:
+                        res.append((op[:2] + [sub], ob))
+                else:
+                    res.append((op, ob))
+            return res
+
+        kept = ddmin_batch(pos, lambda cs: fails_many([only(c) for c in cs]))
+        if len(kept) < len(pos):
+            ps = only(kept)
     cands = [mk(ps, keep_obs=False), mk(ps)]
     res = pool.run(mod, "impl", cands, timeout=120, workers=2)
     out = (case, detail)
@@ -1820,6 +2106,8 @@ def prune_insts(case):
             return [(op, 4)]
         if op[0] == "mseq":
             return [(x, 3) for x in op[2] if x[0] == "set"]
+        if op[0] == "hmeta":
+            return [(x[2], 3) for x in op[2] if x[2][0] == "set"]
         return []
 
     for op in case["ops"]:
@@ -1843,7 +2131,7 @@ def search(ctx, pid, mod):
 
     for k in range(1, 4):
         sub = core.Ctx(pid, "quick" if k < 3 else "thorough", ctx.seed + 7919 * k)
-        cases = [gen_case(sub.rng, quick=(k < 3), held=True) for _ in range(150)]
+        cases = [gen_case(sub.rng, quick=(k < 3), held=True, wrappers=pid in WRAPPER_PROPS) for _ in range(150)]
         res = pool.run(mod, "impl", cases, timeout=240)
         ctx.search_log.append("seed %d: %d histories, oracle only" % (sub.seed, len(cases)))
         for c, r in zip(cases, res):
@@ -1867,7 +2155,7 @@ def replay(ctx, pid, mod, rep):
     else:
         print("implementation:", core.canon(r)[:2000])
     mo = lean.run_driver("drv_ctr", [lines(case)])[0][n_prefix():]
-    print("model: status:", [x for i, x in enumerate(mo) if i % 4 == 0])
+    print("model: status:", [g[0] for g in model_steps(case, mo) or []])
     if "ok" in r:
         print("correspondence:", compare_parts(PARTS[pid])(case, r["ok"], lean.run_driver("drv_ctr", [lines(case)])[0]))
     return 1 if ("ok" in r and r["ok"]["oracle"]) or "timeout" in r else 0
